@@ -23,6 +23,8 @@ static unsigned long g_n0;          /* announced element / member count */
 static unsigned long g_entries;     /* entries completely processed (child returned Ok) */
 static unsigned long g_child_calls; /* child parseVariant calls */
 static unsigned long g_adds;        /* successful addElement / addMember calls */
+static _Bool g_addmember_failed;
+static unsigned g_derefs;
 static unsigned long g_saves;       /* StringBuffer::save calls */
 static unsigned long g_allowed;     /* entries whose sub-filter answered allow() == true */
 static int g_stage;                 /* 0 between entries; 1 key read; 2 member filter selected; 3 key saved; 4 slot added */
@@ -225,6 +227,11 @@ void h_filter_index_key(void) {
   _Bool ra = DeserializationOption__Filter__allow(&r);
   CHECK(ao || !ra, "C03/F6: !allowObject => !f[key].allow()  (readObject's null-object discipline)");
   CHECK(ra == spec_truthy(r.variant_.data_), "C11/F7: the member is kept iff its entry is true-ish (null / false / missing removes it)");
+#ifdef STRICT_NULL_ENTRY
+  /* the property read literally: a member LISTED with null is removed; "*" stands for any OTHER key */
+  if (!av && k == K_OBJECT && !key_is_star && m != 0 && m->type_ == T_NULL)
+    CHECK(!ra, "C11: a member listed with a null entry is removed even when the wildcard is true-ish");
+#endif
 }
 
 /* (F3) (F5): f[integer index], both instantiations used by the deserializers (0U in MessagePack, size_t in JSON) */
@@ -521,10 +528,16 @@ struct VariantData *ObjectData__addMember_StringNode_p(struct ObjectData *self, 
   CHECK(self != 0, "C03: addMember is reached only with the object the filter admitted (object != 0)");
   CHECK(self == &g_object && key == &g_saved && resources == &g_rm && g_stage == 3, "the member is added to this object under the saved key");
   CHECK(g_tok[g_cur_tok].allow, "C11/C06: every store is guarded by an allow() answer");
-  if (in_bool()) { g_child_err = E_NOMEM; return (struct VariantData *)0; }
+  if (in_bool()) { g_child_err = E_NOMEM; g_addmember_failed = 1; return (struct VariantData *)0; }
   g_adds++; g_stage = 4;
   g_slot_now = &g_child_slot[in_bool()];
   return (struct VariantData *)g_slot_now;
+}
+/* dereferenceString [contract proved: strings/pool_dereference]: C06/C19: the reference save() took on the key is given back
+ * when the member cannot be added (otherwise repeated failures make the reference count wrap) */
+void ResourceManager__dereferenceString(struct ResourceManager *self, char *s) {
+  CHECK(self == &g_rm && g_addmember_failed && s == g_saved.data, "C06/C19: only the key whose addMember failed is dereferenced");
+  g_derefs++;
 }
 /* the child [contract proved: mpf_variant]: requires allow() => variant != 0 */
 unsigned int MsgPackDeserializer_StubReader__parseVariant_DeserializationOption__Filter(MD *self, struct VariantData *variant, Filter filter, NL nestingLimit) {
@@ -546,6 +559,7 @@ static unsigned run_coll(int isMap) {
   static MD d;
   memset(&d, 0, sizeof d);
   d.resources_ = &g_rm; g_self = &d; g_is_map = isMap;
+  g_addmember_failed = 0; g_derefs = 0;
   g_entries = 0; g_child_calls = 0; g_adds = 0; g_saves = 0; g_allowed = 0; g_stage = 0; g_child_err = 0; g_slot_now = 0; g_cur_tok = 0;
   g_to_calls = 0; g_index_calls = 0;
   g_keybuf[0] = in_char(); g_keybuf[1] = in_char(); g_keybuf[2] = in_char(); g_keybuf[3] = 0;
